@@ -7,13 +7,16 @@ RECURSIVE SeqsOver(_, _)
 SeqsOver(A, n) == IF n = 0 THEN {<<>>} ELSE LET s == SeqsOver(A, n - 1) IN s \cup {Append(x, u) : x \in {y \in s : Len(y) = n - 1}, u \in A}
 Full == {97, 32, 50, 56, 57} \cup Breaks          \* 'a', space, '2', '8', '9' and every line break
 Small == {97, 32, 50, 56, 10, 13, 8232}
+(* neighbours of the line-break characters that are NOT line breaks (tab, NUL, U+0084, U+0086, U+2027, U+202A, no-break *)
+(* space, U+001F), mixed with two real ones                                                                        *)
+Near == {97, 9, 0, 132, 134, 8231, 8234, 160, 31, 10, 8232}
 Bytes == {97, 195, 169, 10, 13}                    \* 'a', the two bytes of U+00E9, \n, \r
 (* contents are built from units so that the UTF-8 pair stays together *)
 Units == {<<97>>, <<195, 169>>, <<10>>, <<13, 10>>, <<13>>, <<239, 187, 191>>, <<240, 159, 152, 128>>}   \* incl. U+FEFF (3 bytes) and a 4-byte character
 RECURSIVE Cat(_)
 Cat(ss) == IF ss = <<>> THEN <<>> ELSE Head(ss) \o Cat(Tail(ss))
 Contents == {Cat(u) : u \in SeqsOver(Units, ContentLen)}
-Init == \/ /\ kind = "splitlines" /\ t \in SeqsOver(Full, TextLen) \cup SeqsOver(Small, SmallLen) /\ bs = 0
+Init == \/ /\ kind = "splitlines" /\ t \in SeqsOver(Full, TextLen) \cup SeqsOver(Small, SmallLen) \cup SeqsOver(Near, 3) /\ bs = 0
         \/ /\ kind = "revlines" /\ t \in Contents /\ bs \in 1..MaxBlock
 Next == UNCHANGED vars
 Spec == Init /\ [][Next]_vars
